@@ -476,6 +476,12 @@ def run_sessions(R, todo):
                 R.violation("files written for a scale that received no chunk", case, {"scale": k})
 
 
+def stream_info_sessions(R, n):
+    """One accessor whose info file is replaced before a scale is first written
+    (shardlib.run_info_sessions): a fresh accessor must return every chunk."""
+    L.run_info_sessions(R, n, "C05")
+
+
 def stream_voxels(R, n):
     """Decoded voxels through PrecomputedIO on a sharded dataset."""
     import numpy as np
@@ -533,7 +539,8 @@ def run(R):
     quick = R.tier == "quick"
     for fn, n in ((stream_datasets, 480 if quick else 5000), (stream_duplicates, 250 if quick else 2500),
                   (stream_damaged, 400 if quick else 4000), (stream_minishard, 800 if quick else 12000),
-                  (stream_sessions, 150 if quick else 2500), (stream_voxels, 60 if quick else 600)):
+                  (stream_sessions, 150 if quick else 2500), (stream_info_sessions, 60 if quick else 1000),
+                  (stream_voxels, 60 if quick else 600)):
         try:
             fn(R, n)
         except (L.ImplHang, L.ImplAbort):
@@ -557,6 +564,8 @@ def _replay_once(R, payload):
     if not case and payload.get("disagreements"):
         case = payload["disagreements"][0].get("case") or {}
     before = (len(R.violations), len(R.disagreements))
+    if case.get("stream") == "info-sessions" and "steps" in case:
+        return L.replay_info_session(R, case, "C05")
     if case.get("stream") == "sessions" and "sops" in case:
         def unb(v):
             return bytes.fromhex(v[1:]) if isinstance(v, str) else bytes(v)
